@@ -231,6 +231,118 @@ def extract_path(name, stmts):
     return acc
 
 
+# ---- car-like spaces (round 10): the path overloads interpolate(from, path, t, state[, radius]) ----------------------
+# Linear scan: every statement of the body in TEXTUAL order (all switch cases and both arms of every if: an over-approximation
+# of each control-flow path), within a statement the reads before the writes.  Pointer variables are resolved: a state obtained
+# from allocState() is a scratch object (its accesses are dropped), `state->as<…>()` is the output.  A loop body is scanned
+# once; that is only sound if no loop body both reads an input state and writes the output, which is checked (fails loudly).
+CAR_BODIES = [
+    ("DubinsPathOverload", os.path.join(B, "spaces/src/DubinsStateSpace.cpp"),
+     r"DubinsStateSpace::interpolate\s*\(\s*const\s+State\s*\*\s*from\s*,\s*const\s+DubinsPath\b[^)]*\)\s*const\s*\{"),
+    ("ReedsSheppPathOverload", os.path.join(B, "spaces/src/ReedsSheppStateSpace.cpp"),
+     r"ReedsSheppStateSpace::interpolate\s*\(\s*const\s+State\s*\*\s*from\s*,\s*const\s+ReedsSheppPath\b[^)]*\)\s*const\s*\{"),
+]
+CAR_GET = {"getX": ["X"], "getY": ["Y"], "getYaw": ["Yaw"]}
+CAR_SET = {"setX": ["X"], "setY": ["Y"], "setYaw": ["Yaw"], "setXY": ["X", "Y"]}
+
+
+def car_body(path, sig):
+    src = open(path).read()
+    src = re.sub(r"/\*.*?\*/", " ", src, flags=re.S)
+    src = re.sub(r"//[^\n]*", " ", src)
+    m = re.search(r"void\s+(?:ompl::base::)?" + sig, src)
+    if not m:
+        raise SystemExit("rwsets: cannot find the path overload %s in %s" % (sig[:40], path))
+    i, depth = m.end(), 1
+    while depth:
+        depth += {"{": 1, "}": -1}.get(src[i], 0)
+        i += 1
+    return src[m.end():i - 1]
+
+
+def car_stmt_accesses(name, st, ptr):
+    """(reads, writes) of one statement; objects in {from, to, out}; scratch objects dropped"""
+    names = "|".join(sorted(ptr, key=len, reverse=True))
+    reads, writes, covered = [], [], []
+    for a in re.finditer(r"\b(%s)\s*(?:->as<[^>]*>\(\))?\s*->\s*(\w+)\s*\(" % names, st):
+        obj, meth = ptr[a.group(1)], a.group(2)
+        covered.append(a.span())
+        if meth in CAR_GET:
+            reads += [(a.start(), obj, f) for f in CAR_GET[meth]]
+        elif meth in CAR_SET:
+            writes += [(a.start(), obj, f) for f in CAR_SET[meth]]
+        elif meth == "as":
+            continue
+        else:
+            raise SystemExit("rwsets: %s: unknown state method %s in `%s`" % (name, meth, st.strip()))
+    for a in re.finditer(r"enforceBounds\s*\(\s*(%s)\b" % names, st):
+        covered.append(a.span())
+        reads.append((a.start(), ptr[a.group(1)], "Yaw"))
+        writes.append((a.start(), ptr[a.group(1)], "Yaw"))
+    for a in re.finditer(r"freeState\s*\(\s*(%s)\s*\)" % names, st):
+        covered.append(a.span())
+    # anything else that mentions a state pointer is not understood
+    for a in re.finditer(r"\b(%s)\b" % names, st):
+        if not any(c0 <= a.start() < c1 for c0, c1 in covered):
+            raise SystemExit("rwsets: %s: state pointer `%s` used in a way the translator does not understand: `%s`" % (name, a.group(1), st.strip()))
+    return sorted(reads), sorted(writes)
+
+
+def extract_car(name, path, sig):
+    body = strip_calls(strip_calls(car_body(path, sig), "assert"), "BOOST_ASSERT_MSG")
+    ptr = dict(OBJ)
+    acc = []
+    loops = []                                           # (start, end) of every for-loop body
+    body = re.sub(r"\bcase\s+\w+\s*:", ";", body)
+    for m in re.finditer(r"\bfor\s*\(", body):
+        i, depth = m.end(), 1
+        while depth:
+            depth += {"(": 1, ")": -1}.get(body[i], 0)
+            i += 1
+        while body[i].isspace():
+            i += 1
+        if body[i] != "{":
+            raise SystemExit("rwsets: %s: for-loop without a braced body" % name)
+        j, depth = i + 1, 1
+        while depth:
+            depth += {"{": 1, "}": -1}.get(body[j], 0)
+            j += 1
+        loops.append((i, j))
+    flat = body
+    pos = 0
+    for piece in re.split(r"([;{}])", flat):
+        start = pos
+        pos += len(piece)
+        st = piece.strip()
+        if not st or st in ";{}" or st == "break":
+            continue
+        m = re.match(r"(?:auto|State|StateType)\s*\*?\s*(\w+)\s*=\s*(.*)$", st, flags=re.S)
+        if m and re.search(r"\ballocState\s*\(", m.group(2)):
+            ptr[m.group(1)] = "tmp"
+            continue
+        if m:
+            a = re.match(r"\(?\s*(\w+)\b", m.group(2))
+            if a and a.group(1) in ptr and re.fullmatch(r"\w+\s*(?:->as<[^>]*>\(\))?", m.group(2).strip()):
+                ptr[m.group(1)] = ptr[a.group(1)]
+                continue
+        reads, writes = car_stmt_accesses(name, st, ptr)
+        inloop = any(a <= start < b for a, b in loops)
+        for _, obj, f in reads:
+            if obj != "tmp":
+                acc.append(("rd", obj, f, inloop))
+        for _, obj, f in writes:
+            if obj == "tmp":
+                continue
+            if obj != "out":
+                raise SystemExit("rwsets: %s writes an input state: `%s`" % (name, st))
+            acc.append(("wr", f, inloop))
+    if any(a[0] == "rd" and a[1] in ("from", "to") and a[-1] for a in acc) and any(a[0] == "wr" and a[-1] for a in acc):
+        raise SystemExit("rwsets: %s: a loop body reads an input state and writes the output (loop bodies are scanned once)" % name)
+    if not any(a[0] == "wr" for a in acc):
+        raise SystemExit("rwsets: %s: no output write found" % name)
+    return [[a[:-1] for a in acc]]
+
+
 def render(all_acc):
     fields = []
     for _, ps in all_acc:
@@ -255,7 +367,7 @@ def render(all_acc):
                     items.append(".wr %d" % fields.index(a[1]))
             rows.append("[%s]" % ", ".join(items))
             doc.append("  " + " ".join(("r(%s.%s)" % (a[1], a[2]) if a[0] == "rd" else "W(%s)" % a[1]) for a in acc))
-        L.append("/-- %s::interpolate, one list per control-flow path:\n%s -/" % (name, "\n".join(doc)))
+        L.append("/-- %s%s, one list per control-flow path:\n%s -/" % (name, " (interpolate(from, path, t, state): textual order, scratch state dropped)" if name.endswith("PathOverload") else "::interpolate", "\n".join(doc)))
         L.append("def %s : List (List Acc) :=\n  [%s]" % (name[0].lower() + name[1:], ",\n   ".join(rows)))
         L.append("")
     L.append("/-- every extracted path of every body -/")
@@ -265,7 +377,7 @@ def render(all_acc):
 
 
 def main():
-    all_acc = [(n, extract(n, p, fn)) for n, p, fn in BODIES]
+    all_acc = [(n, extract(n, p, fn)) for n, p, fn in BODIES] + [(n, extract_car(n, p, sig)) for n, p, sig in CAR_BODIES]
     text = render(all_acc)
     os.makedirs(os.path.dirname(OUT), exist_ok=True)
     with open(OUT + ".lock", "w") as lk:
